@@ -73,6 +73,8 @@ var inlinePkgs = map[string]bool{
 	"encoding/binary": true,
 	"strings":         true,
 	"internal/stringslite": true,
+	"net/netip":            true,
+	"internal/byteorder":   true,
 }
 
 // execCall handles a call; returns result values (len = number of results).
